@@ -122,6 +122,8 @@ def judge(obs, ref):
         return None
     if obs[0] == "err":
         kind = obs[1]
+        if "NOT_IMPLEMENTED" in obs[2] or "NotImplemented" in kind:
+            return None  # the runtime has no kernel for this (valid) operator/type: nothing to conclude
         if kind == "load":
             return ("load-fails", obs[2])
         if kind == "run":
@@ -159,14 +161,16 @@ def attribute_direct(which, kind, detail, observer, attrs):
     if which in ("model", "func"):
         cls = observer.malformed(which, attrs)
         if cls:
-            return "C01|graph|malformed-proto|" + "+".join(cls)
+            return "C01|graph|malformed-proto|" + cls[0]
+        if kind.startswith("differs") and reads_loop_variable_after_loop(observer.prog):
+            return "C01|graph|loop-variable-read-after-its-loop"
         if kind.startswith("differs") or kind in ("load-fails", "run-fails"):
             try:
                 sel = selection_probe(observer.prog, sgrun.get_fproto(observer.loaded))
             except Exception:  # noqa: BLE001
                 sel = []
             if sel:
-                return "C01|graph|control-flow-output-selection|" + "+".join(sel)
+                return "C01|graph|control-flow-output-selection|" + sel[0]
     if which == "eager" and kind == "raises:TypeError" and detail.startswith("unsupported operand type(s) for "):
         sym = detail[len("unsupported operand type(s) for "):].split(":")[0]
         return f"C01|eager-raises|Tensor-has-no-reflected-operator|{sym}"
@@ -465,20 +469,25 @@ def minimise_op(spec, feeds, attrs, which, kclass):
         return False
 
     cur = copy.deepcopy(spec)
-    for dim in ("context", "chain", "alpha_default"):
-        if cur[dim]:
-            t = dict(cur)
-            t[dim] = 0
-            if fails(t):
-                cur = t
-    for j in range(len(cur["operands"])):
-        pick = cur["operands"][j]
-        for alt in range(0, pick):
-            t = copy.deepcopy(cur)
-            t["operands"][j] = alt
-            if fails(t):
-                cur = t
-                break
+    changed = True
+    while changed:
+        changed = False
+        for dim in ("context", "chain", "alpha_default"):
+            if cur[dim]:
+                t = dict(cur)
+                t[dim] = 0
+                if fails(t):
+                    cur = t
+                    changed = True
+        for j in range(len(cur["operands"])):
+            pick = cur["operands"][j]
+            for alt in range(0, pick):
+                t = copy.deepcopy(cur)
+                t["operands"][j] = alt
+                if fails(t):
+                    cur = t
+                    changed = True
+                    break
     # an earlier configuration with the same operand roles that shows the same violation
     roles = sggen.OP_CONFIGS[cur["op"]][1]
     nout = sggen.OP_CONFIGS[cur["op"]][3]
@@ -741,3 +750,18 @@ def selection_probe(prog, fproto):
             why = "live-only-through-zero-trip-loop" if len(want_weak) <= n else "live-variable"
             out.append(f"{kind}-output-missing:{why}")
     return sorted(set(out))
+
+
+def reads_loop_variable_after_loop(prog):
+    """True when a top-level statement (or the return) after a top-level ``for`` reads that loop's variable:
+    python leaves the last index there, an ONNX Loop has no such output."""
+    body = prog["body"]
+    for idx, st in enumerate(body):
+        if st[0] != "for":
+            continue
+        later = set()
+        _uses(body[idx + 1:], later)
+        _uses(prog["ret"], later)
+        if st[1] in later:
+            return True
+    return False
